@@ -39,3 +39,18 @@ Theorem specialize_same_endpoint : forall pt ms segs,
   exists out, interp_all (specialize pt ms segs) = Ok out /\ total_delta out = total_delta segs.
 Proof. exact ProofsSpec.specialize_same_endpoint. Qed.
 Print Assumptions specialize_same_endpoint.
+
+(* specializeCommands with generalizeFirst=True (the default, and what specializeProgram does) on ANY list of the thirteen path
+   operators in any accepted argument-count form: whenever it succeeds, the emitted commands draw what the input draws --
+   segment for segment (moves combined) with preserveTopology, modulo the documented merges without *)
+Theorem specialize_commands_keep_topology : forall ms cs outc,
+  specialize_commands true ms cs = Ok outc ->
+  exists D, interp_all cs = Ok D /\ interp_all outc = Ok (p1 D).
+Proof. exact ProofsSpec.specialize_commands_keep_topology. Qed.
+Print Assumptions specialize_commands_keep_topology.
+
+Theorem specialize_commands_keep_fill : forall ms cs outc,
+  specialize_commands false ms cs = Ok outc ->
+  exists D out, interp_all cs = Ok D /\ interp_all outc = Ok out /\ fill_eq out D.
+Proof. exact ProofsSpec.specialize_commands_keep_fill. Qed.
+Print Assumptions specialize_commands_keep_fill.
